@@ -43,6 +43,10 @@ ResolveSound(S, R, acc) == Cardinality(R) = 1 => Covers(CHOOSE x \in R : TRUE, S
 FirstMatch(s, detected, r, acc) ==
   LET idx == {i \in DOMAIN r.types : r.types[i] \in acc[s]}
   IN IF idx = {} THEN detected = "" ELSE detected = r.types[Min(idx)]
+\* the name detection must give: the first registered acceptor, "" if none
+FirstMatchName(s, r, acc) ==
+  LET idx == {i \in DOMAIN r.types : r.types[i] \in acc[s]}
+  IN IF idx = {} THEN "" ELSE r.types[Min(idx)]
 OnlyIfAccepts(s, detected, acc) == detected = "" \/ detected \in acc[s]
 NeverDisabled(detected, r) == detected = "" \/ detected \in ToSet(r.types)
 =============================================================================
